@@ -323,6 +323,7 @@ pub fn site(n: u8) -> (Vec<MPart>, &'static [&'static str]) {
     }
 }
 
+#[allow(dead_code)]
 pub struct Model {
     /// the event value the harness constructs (what is handed straight to a destination)
     pub base: MEv,
